@@ -518,8 +518,8 @@ src/git/repo_storage.rs::persist_file_version#0 | create_dir_all | &blobs_dir | 
 src/git/repo_storage.rs::persist_file_version#1 | write | blob_path | repoAiDir
 src/git/repo_storage.rs::write_all_checkpoints#0 | write | &checkpoints_file | repoAiDir
 src/git/repo_storage.rs::write_all_checkpoints#1 | write | &checkpoints_file | repoAiDir
-src/git/repo_storage.rs::write_initial_attributions#0 | remove_file | &self.initial_file | repoAiDir
-src/git/repo_storage.rs::write_initial_attributions#1 | write | &self.initial_file | repoAiDir
+src/git/repo_storage.rs::write_initial_data#0 | remove_file | &self.initial_file | repoAiDir
+src/git/repo_storage.rs::write_initial_data#1 | write | &self.initial_file | repoAiDir
 src/utils.rs::acquire#0 | OpenOptions | path | repoAiDir
 src/git/rewrite_log.rs::append_event_to_file#0 | write | file_path | repoAiDir
 src/git/rewrite_log.rs::append_event_to_file#1 | write | file_path | repoAiDir
@@ -565,6 +565,17 @@ COUNT_FACTS = [
     (r'lock_for_update\(&self\.dir\.join\("checkpoints\.jsonl"\)\)', 1),
     (r'lock_for_update\(&repo\.common_dir\(\)\.join\("ai"\)\.join\("notes"\)\)', 1),
     (r"let _lock = crate::git::repo_storage::lock_for_update\(file_path\);", 1),
+]
+# target expressions that are reviewed independently of the enclosing function: fields of RepoStorage /
+# PersistedWorkingLog, each assigned exactly once from the ai dir (pinned by ROOT_FACTS and FIELD_FACTS); a refactoring
+# that moves such a write into another function of the same file keeps its root
+REVIEWED_FIELD_TARGETS = {
+    "src/git/repo_storage.rs": {"&self.initial_file": "repoAiDir", "&self.rewrite_log": "repoAiDir", "&self.ai_dir": "repoAiDir",
+                                "&self.working_logs": "repoAiDir", "&self.logs": "repoAiDir"},
+}
+FIELD_FACTS = [
+    ("src/git/repo_storage.rs", r"let config = RepoStorage \{ ai_dir: ai_dir\.to_path_buf\(\), repo_workdir: repo_workdir\.to_path_buf\(\), working_logs: working_logs_dir, rewrite_log: rewrite_log_file, logs: logs_dir, \};"),
+    ("src/git/repo_storage.rs", r"Self \{ dir, base_commit: base_commit\.to_string\(\), repo_workdir: repo_root, canonical_workdir, dirty_files, initial_file, \}"),
 ]
 ROOTS = ["repoAiDir", "homeGitAi", "gitConfig", "hooksDir", "other"]
 
@@ -662,6 +673,9 @@ def extract():
     for rel, rx in ROOT_FACTS:
         if not re.search(rx, ix.texts[rel][0]):
             problems.append(f"{rel}: path-root fact no longer holds: /{rx}/")
+    for rel, rx in FIELD_FACTS:
+        if not re.search(rx, PT.squash(ix.texts[rel][0])):
+            problems.append(f"{rel}: field assignment fact no longer holds: /{rx}/")
     alltext = "\n".join(t for t, _ in ix.texts.values())
     for rx, n in COUNT_FACTS:
         got = len(re.findall(rx, alltext))
@@ -692,7 +706,10 @@ def extract():
             n += 1
             r = reviewed.get(key)
             root, rev = "other", False
-            if r is None:
+            by_field = REVIEWED_FIELD_TARGETS.get(f["file"], {}).get(arg)
+            if r is None and by_field is not None:
+                root, rev = by_field, True
+            elif r is None:
                 problems.append(f"UNREVIEWED file-system write {key}: {op}({arg})")
             elif (r[0], r[1]) != (op, arg):
                 problems.append(f"{key}: reviewed as {r[0]}({r[1]}) but the site is now {op}({arg})")
